@@ -1300,3 +1300,47 @@ def watcher_new_model(ctx, rule):
         ctx.fail(rule, f, f.node, "Watcher model: %s (%d disagreeing case(s))" % (problems[0], len(problems)), key=f.qualname + "::watcher-new-model")
     else:
         ctx.ok(rule, f, f.node, "Watcher model, %d cases: every field, the precedence included, is stored as given; a missing precedence is 0" % n)
+
+
+def rx_attribute_resolution_is_per_object(ctx, rule):
+    """rx.__getattribute__ decides from the CURRENT object which attribute names an expression accepts (`dir(current)` includes
+    instance attributes; two values of one type may differ).  Nothing it consults -- directly or through a module-level
+    helper it calls -- may be module-level mutable state (a memo keyed by type is shared by all expressions and answers
+    for the first object of that type ever seen)."""
+    g = ctx.repo.func("param.reactive.rx.__getattribute__")
+    mod = g.module
+    mutable_globals = set()
+    for st in mod.tree.body:
+        tg = st.targets if isinstance(st, ast.Assign) else ([st.target] if isinstance(st, ast.AnnAssign) and st.value is not None else [])
+        val = getattr(st, "value", None)
+        if tg and isinstance(val, (ast.Dict, ast.List, ast.Set, ast.DictComp, ast.ListComp, ast.SetComp)) or (
+                tg and isinstance(val, ast.Call) and norm(val.func).rsplit(".", 1)[-1] in ("dict", "list", "set", "defaultdict", "OrderedDict", "WeakKeyDictionary", "WeakValueDictionary", "lru_cache")):
+            mutable_globals |= {t.id for t in tg if isinstance(t, ast.Name)}
+    todo, seen, bad = [g], {g.qualname}, None
+    uses_dir = False
+    while todo and bad is None:
+        h = todo.pop()
+        for n in ast.walk(h.node):
+            if isinstance(n, ast.Name) and isinstance(n.ctx, ast.Load) and n.id in mutable_globals:
+                bad = (h, n)
+                break
+            if isinstance(n, ast.Call) and isinstance(n.func, ast.Name):
+                if n.func.id == "dir":
+                    uses_dir = True
+                t = ctx.repo.funcs.get("%s.%s" % (mod.name, n.func.id))
+                if t is not None and t.cls is None and t.qualname not in seen:
+                    if t.has_decorator("lru_cache") or t.has_decorator("functools.lru_cache") or t.has_decorator("cache") or t.has_decorator("functools.cache"):
+                        bad = (h, n)
+                        break
+                    seen.add(t.qualname)
+                    todo.append(t)
+    if bad is not None:
+        h, n = bad
+        ctx.fail(rule, h, n, "the attribute names an expression accepts are taken from module-level state (`%s`, reached from rx.__getattribute__%s): a memo shared by all expressions answers "
+                             "for the first object of a type ever seen -- `expr.attr` raises AttributeError for a later object that has the attribute, or accepts a name it lacks" % (
+                                 norm(n)[:50], "" if h is g else " through " + h.name), key=g.qualname + "::attribute-names-from-shared-state")
+    elif not uses_dir:
+        from engine.loader import AnalysisError
+        raise AnalysisError("%s: rx.__getattribute__ no longer lists the attributes of the current object with dir(): the anchor of this rule vanished" % rule)
+    else:
+        ctx.ok(rule, g, g.node, "rx.__getattribute__ lists the attributes of the current object on every access (dir); no module-level mutable state is consulted (%d module-level containers in reactive.py)" % len(mutable_globals))
